@@ -106,7 +106,7 @@ theorem shutdown_core (s : St) (hc : Core s) : Core (shutdown s) := by
     rw [shutdown_cur]; split
     · rfl
     · rename_i h; exact cur_none_of_unresolved s hc (by simpa using h)
-  refine ⟨?_, ?_, ?_, ?_, ?_, ?_, ?_, ?_, ?_, ?_, ?_, ?_, ?_, ?_, ?_, ?_, ?_, ?_, ?_, ?_⟩
+  refine ⟨?_, ?_, ?_, ?_, ?_, ?_, ?_, ?_, ?_, ?_, ?_, ?_, ?_, ?_, ?_, ?_, ?_, ?_, ?_, ?_, ?_⟩
   · intro h
     have ⟨h1, h2⟩ := hc.pre (by simpa using h)
     constructor
@@ -195,6 +195,10 @@ theorem shutdown_core (s : St) (hc : Core s) : Core (shutdown s) := by
     obtain ⟨c, h1, h2⟩ := shutdown_call s i c' h
     simp [h2, updCall] at hd ⊢
     left; exact hc.deadC i c h1 (by simpa using hd)
+  · intro i c' h hd
+    obtain ⟨c, h1, h2⟩ := shutdown_call s i c' h
+    simp [h2, updCall] at hd ⊢
+    left; exact hc.drainC i c h1 hd
 
 /-- after `shutdown` every existing call is stale -/
 theorem shutdown_stale (s : St) (hc : Core s) (j : Nat) (c' : Call)
@@ -231,7 +235,7 @@ theorem spawned_core (s1 : St) (hc : Core s1) (hstale : ∀ (j : Nat) (c : Call)
     cases h : s1.cfgd
     · have := (hc.pre h).1; simp [liveRefs, this] at hl
     · rfl
-  refine ⟨?_, ?_, ?_, ?_, ?_, hc.resCur, ?_, hc.curNone, hc.tgtVal, hc.tgtErr, ?_, ?_, ?_, ?_, ?_, hc.told, ?_, hc.panicF, hc.pendNE, ?_⟩
+  refine ⟨?_, ?_, ?_, ?_, ?_, hc.resCur, ?_, hc.curNone, hc.tgtVal, hc.tgtErr, ?_, ?_, ?_, ?_, ?_, hc.told, ?_, hc.panicF, hc.pendNE, ?_, ?_⟩
   · intro h; simp [spawned, hcfg] at h
   · have h1 := Chain.inv_spawn (chainSlot s1) hc.chain
     refine chain_congr _ _ h1 (by simp [spawned, chainSlot, Chain.spawnSlot]) (by simp [spawned, chainSlot, Chain.spawnSlot]) ?_
@@ -289,6 +293,10 @@ theorem spawned_core (s1 : St) (hc : Core s1) (hstale : ∀ (j : Nat) (c : Call)
     rcases spawned_call s1 i c h with ⟨_, h⟩ | ⟨_, h⟩
     · exact hc.deadC i c h hd
     · simp [h, newCall, spawned] at hd ⊢; exact hd
+  · intro i c h hd
+    rcases spawned_call s1 i c h with ⟨_, h⟩ | ⟨_, h⟩
+    · exact hc.drainC i c h hd
+    · simp [h, newCall] at hd
 
 theorem spawned_live (s1 : St) (hc : Core s1) (hstale : ∀ (j : Nat) (c : Call), s1.calls[j]? = some c → c.nonce < s1.nonce)
     (hnr : s1.resolved = false) (hl : 0 < liveRefs s1) (hctx : s1.ctx ≠ 0) : Live (spawned s1) := by
